@@ -1522,6 +1522,31 @@ impl CoordinateSet for Bare {
     }
 }
 
+/// user containers of 2 and 3 dimensions implementing the required trait methods only: every default
+/// method must treat them as the built-in containers of the same dimension are treated
+struct BareN(usize, Vec<[f64; 4]>);
+impl CoordinateSet for BareN {
+    fn len(&self) -> usize {
+        self.1.len()
+    }
+    fn dim(&self) -> usize {
+        self.0
+    }
+    fn get_coord(&self, index: usize) -> Coor4D {
+        let v = self.1[index];
+        match self.0 {
+            2 => Coor4D([v[0], v[1], 0.0, f64::NAN]),
+            3 => Coor4D([v[0], v[1], v[2], f64::NAN]),
+            _ => Coor4D(v),
+        }
+    }
+    fn set_coord(&mut self, index: usize, value: &Coor4D) {
+        for j in 0..self.0 {
+            self.1[index][j] = value[j];
+        }
+    }
+}
+
 fn oracle_c19c(fields: &[&str]) -> String {
     let v: Vec<f64> = fields[0].split(',').map(parse_f).collect();
     let c = Coor4D([v[0], v[1], v[2], v[3]]);
@@ -1588,6 +1613,59 @@ fn oracle_c19c(fields: &[&str]) -> String {
     bare.set_xyz(0, v[1], v[0], v[3]);
     fast.set_xyz(0, v[1], v[0], v[3]);
     check!((0..4).all(|i| same(bare.get_coord(0)[i], fast.get_coord(0)[i])), "set_xyz fast path");
+    // user containers of fewer dimensions: the defaults against the built-in containers of that dimension
+    {
+        let mut u3 = BareN(3, vec![[v[0], v[1], v[2], 0.0]; 2]);
+        let mut b3 = vec![Coor3D([v[0], v[1], v[2]]); 2];
+        let mut u2 = BareN(2, vec![[v[0], v[1], 0.0, 0.0]; 2]);
+        let mut b2 = vec![Coor2D([v[0], v[1]]); 2];
+        macro_rules! agree {
+            ($what:expr) => {
+                for i in 0..2 {
+                    let (a, b) = (u3.get_coord(i), b3.get_coord(i));
+                    check!((0..4).all(|j| same(a[j], b[j])), "{}: a user 3D container holds {:?}, Vec<Coor3D> {:?}", $what, a, b);
+                    let (a, b) = (u2.get_coord(i), b2.get_coord(i));
+                    check!((0..4).all(|j| same(a[j], b[j])), "{}: a user 2D container holds {:?}, Vec<Coor2D> {:?}", $what, a, b);
+                }
+            };
+        }
+        agree!("as constructed");
+        check!(same(u3.xyz(0).2, b3.xyz(0).2) && same(u3.xyzt(1).3, b3.xyzt(1).3) && same(u2.xyz(0).2, b2.xyz(0).2), "xyz / xyzt defaults on user containers");
+        u3.set_xy(0, v[3], 6.5);
+        b3.set_xy(0, v[3], 6.5);
+        u2.set_xy(0, v[3], 6.5);
+        b2.set_xy(0, v[3], 6.5);
+        agree!("set_xy");
+        u3.set_xyz(1, 1.5, v[2], v[1]);
+        b3.set_xyz(1, 1.5, v[2], v[1]);
+        u2.set_xyz(1, 1.5, v[2], v[1]);
+        b2.set_xyz(1, 1.5, v[2], v[1]);
+        agree!("set_xyz");
+        u3.set_xyzt(0, 2.5, v[0], v[3], 9.0);
+        b3.set_xyzt(0, 2.5, v[0], v[3], 9.0);
+        u2.set_xyzt(0, 2.5, v[0], v[3], 9.0);
+        b2.set_xyzt(0, 2.5, v[0], v[3], 9.0);
+        agree!("set_xyzt");
+        // through operators: a plane projection, a 3D conversion, a pipeline
+        for def in ["utm zone=32", "cart", "cart | helmert x=10 | cart inv", "addone"] {
+            let mut ctx = Minimal::default();
+            if let Ok(op) = ctx.op(def) {
+                let start = [0.2 + (v[0] % 1.0).abs().min(0.1), 0.9, 100.0, 0.0];
+                let mut u3 = BareN(3, vec![start; 2]);
+                let mut b3 = vec![Coor3D([start[0], start[1], start[2]]); 2];
+                let mut u2 = BareN(2, vec![start; 2]);
+                let mut b2 = vec![Coor2D([start[0], start[1]]); 2];
+                let n = (ctx.apply(op, Fwd, &mut u3).ok(), ctx.apply(op, Fwd, &mut b3).ok(), ctx.apply(op, Fwd, &mut u2).ok(), ctx.apply(op, Fwd, &mut b2).ok());
+                check!(n.0 == n.1 && n.2 == n.3, "{def}: counts differ between user and built-in containers: {:?}", n);
+                for i in 0..2 {
+                    let (a, b) = (u3.get_coord(i), b3.get_coord(i));
+                    check!((0..4).all(|j| same(a[j], b[j])), "{def}: a user 3D container ends with {:?}, Vec<Coor3D> with {:?}", a, b);
+                    let (a, b) = (u2.get_coord(i), b2.get_coord(i));
+                    check!((0..4).all(|j| same(a[j], b[j])), "{def}: a user 2D container ends with {:?}, Vec<Coor2D> with {:?}", a, b);
+                }
+            }
+        }
+    }
     let mut f3 = vec![Coor3D::origin(); 1];
     let mut f2 = vec![Coor2D::origin(); 1];
     f3.set_xy(0, v[0], v[1]);
